@@ -65,7 +65,13 @@ Answer(q, a) == Lookup(VisC, VisO, q, a)
 AnswerWithLimbo(q, a) == Lookup(VisC \cup lcommits, VisO \cup lobjs, q, a)
 \* r = a backend's answer [k, s, l]: "exc" with the exception's name, "one" value, or "set" given as a sequence
 Same(r, x) == r.k = x.k /\ (IF r.k = "set" THEN {r.l[i] : i \in DOMAIN r.l} = x.e ELSE r.s = x.s)
-Right(q, a, r) == Same(r, Answer(q, a)) \/ Same(r, AnswerWithLimbo(q, a))
+\* ... or, for set-valued answers, anything in between (several aborted groups may have fared differently)
+Between(r, x, y) == /\ r.k = "set" /\ y.k = "set"
+                    /\ LET R == {r.l[i] : i \in DOMAIN r.l} IN
+                       \/ (x.k = "set" /\ x.e \subseteq R /\ R \subseteq y.e) \/ (x.k = "set" /\ y.e \subseteq R /\ R \subseteq x.e)
+                       \/ (x.k = "exc" /\ R # {} /\ R \subseteq y.e)
+Right(q, a, r) == \/ Same(r, Answer(q, a)) \/ Same(r, AnswerWithLimbo(q, a))
+                  \/ Between(r, Answer(q, a), AnswerWithLimbo(q, a))
 
 (* ------------------------------------------------------------------ the design, model-checked on a small universe *)
 Vers == {"t1"}
@@ -74,8 +80,10 @@ ObjU == [t : {"blob", "tree"}, sha : Shas, fid : Fids, rev : Revs]
 AllC == commits \cup pcommits \cup lcommits
 AllO == objs \cup pobjs \cup lobjs
 \* the converter is deterministic: a revision has one commit entry, a (kind, file id, revision) one sha
+\* and a file id names a file or a directory, never both
 Functional(C, O) == /\ \A c1, c2 \in C : c1.rev = c2.rev => c1 = c2
-                    /\ \A o1, o2 \in O : (o1.t = o2.t /\ o1.fid = o2.fid /\ o1.rev = o2.rev) => o1 = o2
+                    /\ \A o1, o2 \in O : (o1.fid = o2.fid /\ o1.rev = o2.rev) => o1 = o2
+                    /\ \A o1, o2 \in O : o1.fid = o2.fid => o1.t = o2.t
 Next == \/ StartWG \/ CommitWG \/ AbortWG \/ Reopen \/ Repack
         \/ \E c \in CommitU : \E os \in {S \in SUBSET {o \in ObjU : o.rev = c.rev} : Cardinality(S) <= MaxObjs} :
               /\ Functional(AllC \cup {c}, AllO \cup os)
